@@ -7,8 +7,8 @@ ACTIONS = ["Init"]
 
 META = {
     "category": "model_checking",
-    "text": "Equality, RFC 4034 6.1 order, composed orders and hash keys of labels, names, character strings, the canonical order of record data (octet order of the canonical wire form given by the Rdata.tla layout table) and of records are operators of Order.tla. TLC checks on an enumerated space (110 labels over the octets around both letter ranges, 166/421 names of up to 3 labels incl. the a.b / a\\.b pair, per-type record data differing in one field, a record grid) that they are total orders coherent with ==, case-insensitive, that hash keys respect ==, that the RFC 4034 example list is sorted, and transitivity over triples. Every enumerated pair is replayed into the real library in every representation (Name<Vec>, Name<Bytes>, ParsedName uncompressed, compressed (labels+pointer, pointer chains, pointer->labels->pointer) and derived from longer names by split_first / parent / iter_suffixes, Chain at three split points, &Name<[u8]>, RelativeName over Vec/slice/Bytes, UncertainName, four case variants; Label and OwnedLabel incl. Borrow<Label> hash agreement and HashMap<OwnedLabel,_> lookup by &Label; CharStr over Vec/slice/Bytes; AllRecordData and ZoneRecordData; Record parsed and flattened, RecordHeader, ParsedRecord, Question) comparing ==, partial_cmp, cmp, name_cmp, canonical_cmp, composed_cmp, lowercase_composed_cmp and hash equality under a fixed hasher; recorded random pairs (names up to 255 octets, record data of all types) are validated by TLC. Representation independence is a law of the specification: Order.tla has carrier terms (flat Name over Vec/Bytes/Array/slice, ParsedName with any set of compression-pointer positions and pointer-only hops, Chain<Rel,Abs>, Chain<Rel,Chain<Rel,Abs>>, Chain<Chain<Rel,Rel>,Abs>, Chain<UncertainName,Abs> relative and absolute, chain_root, &T, &&T), their denotation, and compose / compose_canonical / compose_len written part by part as the implementation does; TLC checks CarrierLaw (they are functions of the denoted name only, canonical = lower-cased compose, also for record data and whole records whose names sit in carriers) and that two model mutants break it. Generated (name, carrier) cases, carrier pairs, record data of all 21 types with a name field and records over carriers are replayed into the real library (24 static carrier types): compose, to_name / to_vec / to_bytes / to_cow / try_to_name<Array> / flatten_into / as_flat_slice, compose_canonical / to_canonical_name, compose_len, iter_labels from both ends, rrsig_label_count, is_root, hash, name_eq / name_cmp / composed_cmp / lowercase_composed_cmp against the flat name in three spellings and between carriers, compose_rdata / compose_canonical_rdata / the *_len_* forms / rdlen / typed == and canonical_cmp of AllRecordData and ZoneRecordData over carriers, Record::compose / compose_canonical / canonical_cmp and RecordHeader::compose_canonical with a carried owner, all against expectations computed from the denoted name alone; recorded random carriers (names up to 255 octets, random cuts and renderings) are validated by TLC.",
-    "note": "Trusted: TLC, Order.tla / Names.tla / Rdata.tla, the harness. Not pinned (only coherence laws demanded): Ord of character strings, record data and records; == of record data whose character strings differ only in case; whether == of records looks at the TTL; canonical order of records of different class, or of the same owner and different type. Transitivity of the implementation's orders follows from agreement with the (TLC-checked) specification order on the enumerated set for pinned orders only; for unpinned orders only antisymmetry and eq<=>cmp=Equal are checked pairwise. Carriers: the 24 shapes are static Rust types chosen by the harness (a Chain deeper than two levels, SmallVec / heapless octets are not among them); Chain implements neither ==, Hash nor CanonicalOrd, so record data over a Chain is compared through the per-type impls and records with a chained owner have no ==; the names inside the data of a record go through six of the shapes.",
+    "text": "Equality, RFC 4034 6.1 order, composed orders and hash keys of labels, names, character strings, the canonical order of record data (octet order of the canonical wire form given by the Rdata.tla layout table) and of records are operators of Order.tla. TLC checks on an enumerated space (110 labels over the octets around both letter ranges, 166/421 names of up to 3 labels incl. the a.b / a\\.b pair, per-type record data differing in one field, a record grid) that they are total orders coherent with ==, case-insensitive, that hash keys respect ==, that the RFC 4034 example list is sorted, and transitivity over triples. Every enumerated pair is replayed into the real library in every representation (Name<Vec>, Name<Bytes>, ParsedName uncompressed, compressed (labels+pointer, pointer chains, pointer->labels->pointer) and derived from longer names by split_first / parent / iter_suffixes, Chain at three split points, &Name<[u8]>, RelativeName over Vec/slice/Bytes, UncertainName, four case variants; Label and OwnedLabel incl. Borrow<Label> hash agreement and HashMap<OwnedLabel,_> lookup by &Label; CharStr over Vec/slice/Bytes; AllRecordData and ZoneRecordData; Record parsed and flattened, RecordHeader, ParsedRecord, Question) comparing ==, partial_cmp, cmp, name_cmp, canonical_cmp, composed_cmp, lowercase_composed_cmp and hash equality under a fixed hasher; recorded random pairs (names up to 255 octets, record data of all types) are validated by TLC. Representation independence is a law of the specification: Order.tla has carrier terms (flat Name over Vec/Bytes/Array/slice, ParsedName with any set of compression-pointer positions and pointer-only hops, Chain<Rel,Abs>, Chain<Rel,Chain<Rel,Abs>>, Chain<Chain<Rel,Rel>,Abs>, Chain<UncertainName,Abs> relative and absolute, chain_root, &T, &&T), their denotation, and compose / compose_canonical / compose_len written part by part as the implementation does; TLC checks CarrierLaw (they are functions of the denoted name only, canonical = lower-cased compose, also for record data and whole records whose names sit in carriers) and that two model mutants break it. Generated (name, carrier) cases, carrier pairs, record data of all 21 types with a name field and records over carriers are replayed into the real library (24 carrier shapes built as 21 static types, 8 relative ones): compose, to_name / to_vec / to_bytes / to_cow / try_to_name<Array> / flatten_into / as_flat_slice, compose_canonical / to_canonical_name, compose_len, iter_labels from both ends, rrsig_label_count, is_root, hash, name_eq / name_cmp / composed_cmp / lowercase_composed_cmp against the flat name in three spellings and between carriers, compose_rdata / compose_canonical_rdata / the *_len_* forms / rdlen / typed == and canonical_cmp of AllRecordData and ZoneRecordData over carriers, Record::compose / compose_canonical / canonical_cmp and RecordHeader::compose_canonical with a carried owner, all against expectations computed from the denoted name alone; recorded random carriers (names up to 255 octets, random cuts and renderings) are validated by TLC.",
+    "note": "Trusted: TLC, Order.tla / Names.tla / Rdata.tla, the harness. Not pinned (only coherence laws demanded): Ord of character strings, record data and records; == of record data whose character strings differ only in case; whether == of records looks at the TTL; canonical order of records of different class, or of the same owner and different type. Transitivity of the implementation's orders follows from agreement with the (TLC-checked) specification order on the enumerated set for pinned orders only; for unpinned orders only antisymmetry and eq<=>cmp=Equal are checked pairwise. Carriers: the shapes are static Rust types chosen by the harness (a Chain deeper than two levels, SmallVec / heapless octets are not among them); Chain implements neither ==, Hash nor CanonicalOrd, so record data over a Chain is compared through the per-type impls and records with a chained owner have no ==; the names inside the data of a record go through six of the shapes.",
     "technique": "TLA+ operators (Order.tla) + TLC laws over an enumerated space; spec->impl case replay; impl->spec trace validation",
     "design_ref": "DESIGN.md §4 C04",
 }
